@@ -251,8 +251,12 @@ def run(env) -> Result:
                 txt = re.sub(r"\033\[[0-9;]*m", "", out)
                 hexpart, _, listing = txt.strip("\n").partition("\n\n")
                 got = bytearray()
-                for ln in hexpart.split("\n"):
-                    got += bytes(int(t, 16) for t in ln[10:59].split())
+                try:
+                    for ln in hexpart.split("\n"):
+                        got += bytes(int(t, 16) for t in ln[10:59].split())
+                except ValueError:
+                    viol("dumpstruct's hex dump has a line whose hex column (16 byte positions) cannot be read back as bytes", dict(case, output=txt[:400]))
+                    continue
                 if bytes(got) != raw:
                     viol("dumpstruct's hex dump is not a dump of exactly the structure's bytes", case)
                 for f in cs.S.__fields__:
